@@ -74,6 +74,10 @@ def gen(rng):
             ops.append({"op": "randomize", "obj": 0})
         elif explicit:
             ops.append({"op": "seed", "obj": 0, "k": rng.randrange(1 << 20), "s": rng.choice([None, None, "top.a[3]"])})
+    if not explicit:
+        # an object that was never given a state keeps the one it drew at its first use: a snapshot taken now replays
+        ops += [{"op": "snap", "obj": 0}, {"op": "randomize", "obj": 0}, {"op": "randomize", "obj": 0},
+                {"op": "restore", "obj": 0, "i": nsnap}, {"op": "randomize", "obj": 0}]
     ops.append({"op": "randomize", "obj": 0})
     scn["ops"] = ops
     scn["explicit"] = explicit
